@@ -75,6 +75,7 @@ type vfClient struct {
 	couchbase.Client
 	mu         sync.Mutex
 	openErr    error
+	openDelay  time.Duration
 	opened     []uint16
 	closed     []uint16
 	onClose    func(vbID uint16)
@@ -95,6 +96,9 @@ func (c *vfClient) GetFailOverLogs(uint16) ([]gocbcore.FailoverEntry, error) {
 }
 
 func (c *vfClient) OpenStream(vbID uint16, _ map[uint32]string, _ *models.Offset, o couchbase.Observer) error {
+	if c.openDelay > 0 {
+		time.Sleep(c.openDelay) // a server that answers slowly (outside the lock: requests overlap)
+	}
 	c.mu.Lock()
 	defer c.mu.Unlock()
 	if c.openErr != nil {
